@@ -40,9 +40,9 @@ INCS = [0, 1, 2, 3, 0xFF, 0x100, 0x7FFF, 0x8000, 0x8001, 0xFFFF, 0x10000, 0x1000
 
 def bound(tier):
     return ("all 2^24 addresses x 3 built-in ROM types; advance from every in-window ROM address x 12 increments; "
-            "432 .map configurations x 2 construction routes" if tier == "thorough" else
+            "432 .map configurations x 3 construction routes (API, source, source with decimal/binary/upper-case numbers)" if tier == "thorough" else
             "boundary address set of every bank x 3 built-in ROM types; advance x 12 increments + 144 (m,n) pairs; "
-            "432 .map configurations x 2 construction routes")
+            "432 .map configurations x 3 construction routes (API, source, source with decimal/binary/upper-case numbers)")
 
 
 # ---- configuration lattice -------------------------------------------------------------
@@ -94,8 +94,8 @@ def build_real_api(decls):
     return b
 
 
-def build_real_source(decls):
-    src = "\n".join(refbus.map_line(*d) for d in decls) + "\n"
+def build_real_source(decls, style="hex"):
+    src = "\n".join(refbus.map_line(*d, style=style) for d in decls) + "\n"
     out = impl.assemble(src, keep_program=True)
     if not out.accepted:
         return None, src, out
@@ -121,6 +121,8 @@ def cases(tier, seed):
     for i, _ in enumerate(lattice()):
         yield ("cfg", i, "api")
         yield ("cfg", i, "source")
+        # the same declarations with the numbers spelled in decimal / binary / upper-case hex / mixed (one style per configuration)
+        yield ("cfg", i, "source:" + ("dec", "bin", "HEX", "mixed")[i % 4])
 
 
 def describe(case, res):
@@ -299,7 +301,7 @@ def run_case(case):
     if via == "api":
         real = build_real_api(decls)
     else:
-        prog, src, out = build_real_source(decls)
+        prog, src, out = build_real_source(decls, via.split(":")[1] if ":" in via else "hex")
         if prog is None:
             return {"evals": 1, "outcome": "map-source-rejected", "violations": [
                 {"key": "bus:map-directive-rejected", "msg": f"`.map` source rejected: {out.brief()} :: {src}"}]}
